@@ -1,5 +1,5 @@
 (* Facts and examples about the snappy model (theories/Base/Snappy.v). *)
-From KV Require Import Base.Prelude Base.Snappy.
+From KV Require Import Base.Prelude Base.Snappy Proofs.BytesFacts.
 From Coq Require Import ZifyBool.
 Import Coq.Strings.String.StringSyntax.
 Local Delimit Scope string_scope with str.
@@ -61,7 +61,7 @@ Qed.
 Lemma zread_i32_ok : forall bs v r,
   zread_i32 bs = Ok (v, r) -> r = skipn 4 bs /\ (4 <= length bs)%nat.
 Proof.
-  intros bs v r. unfold zread_i32, zread.
+  intros bs v r. unfold zread_i32. rewrite zread_unfold.
   destruct (Nat.ltb (length bs) 4) eqn:E; simpl; intro H; [discriminate|].
   apply Nat.ltb_ge in E. inversion H. auto.
 Qed.
@@ -69,7 +69,7 @@ Qed.
 Lemma zread_i32_cases : forall bs,
   (exists v r, zread_i32 bs = Ok (v, r)) \/ zread_i32 bs = Err EUnexpectedEOF.
 Proof.
-  intros bs. unfold zread_i32, zread.
+  intros bs. unfold zread_i32. rewrite zread_unfold.
   destruct (Nat.ltb (length bs) 4); simpl; eauto.
 Qed.
 
